@@ -12,7 +12,16 @@
    (which dies), a copy constructor only from a live element, never a destructor or a copy on
    memory that is no element; [all_finalised]: every initialised token has its Fini.
    [env_ok]: element sizes and allocation granularity are positive.  No bound on element counts,
-   buffer sizes, number of handles, history length or the constructor failure script. *)
+   buffer sizes, number of handles, history length or the constructor failure script.
+
+   SHAPE of the content traits.  [env] carries [eshape e : shape] = ShFull (init and fini) | ShFini (fini
+   only: mpt::reference_array<T>) | ShInit (init only); [ehi e] / [ehf e] say whether there is an init /
+   a fini function.  The model takes the branches of the code accordingly: without init the gap in front
+   of an insert / set position and the target of a set without source are ZERO-FILLED and each zero slot
+   (the empty element of such a type) is adopted by the caller as a new element ([EInit t None] at the
+   place of the memset), source data is refused (docs/C05_set_noinit_copy.diff); without fini the
+   finaliser loops run as ghosts ([EFini t] = element t abandoned, its bytes stay).  Every theorem below
+   that quantifies over [e] therefore holds for ALL THREE shapes (examples for each at the end). *)
 From MptV Require Import Base.Mem C05.TypedModel C05.TypedSpec C05.TypedMonitor C05.TypedLoops C05.TypedOps
   C05.TypedSet C05.TypedWorld C05.TypedStep C05.TypedRun C05.TypedShared.
 
@@ -68,6 +77,20 @@ Theorem C05_shared_copy_constructs :
       /\ (forall t, In t (buf_els e nb) -> ~ In t (buf_els e b)).
 Proof. exact shared_copy_reachable. Qed.
 
+(* Traits with a finaliser but without init function (ShFini): the elements of a shared buffer cannot be
+   copied.  Detaching a handle from a shared buffer that holds elements is REFUSED and nothing changes -
+   no event, same handles, same context, every buffer as before (the reference count of the shared
+   buffer is restored, the block allocated for the copy is gone): no element bytes are duplicated. *)
+Theorem C05_shared_noinit_refused :
+  forall e nh script ops w h id b k len,
+    env_ok e -> exec e (init_world nh script) ops = Ok w -> h < nh ->
+    handle w h = Some id -> hget w id = Some b -> btr b = Some k ->
+    2 <= bref b -> ehi e = false -> ehf e = true -> 0 < bused b -> 0 < len ->
+    exists w',
+      step e w (OpDetach h len) = Ok (w', ORefused)
+      /\ whnd w' = whnd w /\ wctx w' = wctx w /\ (forall j, hget w' j = hget w j).
+Proof. exact shared_noinit_reachable. Qed.
+
 (* One more operation after any history: it never faults and the invariants
    (heap discipline + reference count = number of handles) hold again. *)
 Theorem C05_step_never_faults :
@@ -82,6 +105,15 @@ Proof. exact reachable_step_total. Qed.
 Theorem C05_monitor_sound :
   forall l m, mon_log l = inl m -> mon_sound l m.
 Proof. exact mon_log_sound. Qed.
+
+(* Traits without finaliser (ShInit): the implementation has nothing to print when an element leaves
+   the content.  The monitor used for its log, [monitor_nf] (stored elements are live ones, each stored
+   once; whatever else was live is gone), gives exactly the verdicts of the full monitor on the
+   observations completed by one abandon event [EFini t] for every live element that is no longer
+   stored ([complete_obs]). *)
+Theorem C05_monitor_nofini_complete :
+  forall obs, monitor_nf mon0 obs = monitor mon0 (complete_obs mon0 obs).
+Proof. exact monitor_nf_complete0. Qed.
 
 (* ---- non-vacuity ---- *)
 Definition ex_env : env := mkenv 8 16 64 128 false ShFull.
@@ -125,8 +157,79 @@ Example C05_monitor_rejects_copy_from_dead :
   mon_log [EInit 1 (Some 0); EFini 0; EInit 0 None] = inr (VCopyFromDead 1 0).
 Proof. reflexivity. Qed.
 
+(* ---- the other two shapes ---- *)
+Definition ex_env_fini : env := mkenv 8 16 64 128 false ShFini.
+Definition ex_env_init : env := mkenv 8 16 64 128 false ShInit.
+Example C05_env_fini_ok : env_ok ex_env_fini /\ ehi ex_env_fini = false /\ ehf ex_env_fini = true.
+Proof. unfold env_ok, ex_env_fini; simpl. repeat split; lia. Qed.
+Example C05_env_init_ok : env_ok ex_env_init /\ ehi ex_env_init = true /\ ehf ex_env_init = false.
+Proof. unfold env_ok, ex_env_init; simpl. repeat split; lia. Qed.
+
+(* fini only, stale bytes behind the used data: three elements made by the caller, the first is cut
+   (memmove leaves a byte copy of element 2 behind the used data), insert beyond the end (the gap slot
+   is zero-filled and adopted as element 3, the caller makes 4), shrink (3 and 4 finalised, their
+   patterns stay), grow by two (5, 6), set without source behind the end (gap 7, target 8), release:
+   9 elements, each finalised once, 18 events *)
+Definition ex_ops_fini : list op :=
+  [OpNew 0 (Some KA) 0 false false; OpAppend 0 24; OpCut 0 0 8; OpInsert 0 24 8; OpSetLen 0 16; OpSetLen 0 32;
+   OpSet 0 (Some KA) 40 8 false].
+Example C05_example_log_fini_only :
+  match exec ex_env_fini (init_world 2 []) (ex_ops_fini ++ release_all 2) with
+  | Ok w => rev (clog (wctx w)) =
+            [EInit 0 None; EInit 1 None; EInit 2 None; EFini 0; EInit 3 None; EInit 4 None; EFini 3; EFini 4;
+             EInit 5 None; EInit 6 None; EInit 7 None; EInit 8 None;
+             EFini 1; EFini 2; EFini 5; EFini 6; EFini 7; EFini 8]
+            /\ mon_log (clog (wctx w)) = inl (mkmon [] 9)
+  | _ => False
+  end.
+Proof. vm_compute. split; reflexivity. Qed.
+
+(* init only: copies, sharing, a cut, an insert beyond the end whose gap constructor is refused, detach of
+   the shared buffer (copy constructs), shrink and grow; [EFini t] = element t abandoned *)
+Definition ex_ops_init : list op :=
+  [OpNew 0 (Some KA) 0 false false; OpSet 0 (Some KA) 0 24 true; OpClone 1 0; OpCut 0 0 8; OpInsert 0 24 8;
+   OpDetach 1 32; OpSetLen 0 16; OpSetLen 0 32].
+Example C05_example_log_init_only :
+  match exec ex_env_init (init_world 2 [true; true; true; false]) (ex_ops_init ++ release_all 2) with
+  | Ok w => length (clog (wctx w)) = 20 /\ mon_log (clog (wctx w)) = inl (mkmon [] 10)
+  | _ => False
+  end.
+Proof. vm_compute. split; reflexivity. Qed.
+
+(* the hypotheses of C05_shared_noinit_refused are met by a reachable world *)
+Example C05_shared_noinit_example :
+  match exec ex_env_fini (init_world 2 []) [OpNew 0 (Some KA) 0 false false; OpAppend 0 24; OpClone 1 0] with
+  | Ok w =>
+    handle w 1 = Some 0 /\
+    match hget w 0 with
+    | Some b => btr b = Some KA /\ bref b = 2 /\ bused b = 24 /\ buf_els ex_env_fini b = [0; 1; 2]
+    | None => False
+    end
+  | _ => False
+  end.
+Proof. vm_compute. repeat split; reflexivity. Qed.
+
+(* the monitor for traits without finaliser: element 0 leaves unnoticed, a copy of the stored element 1 is
+   fine; the same bytes stored twice / an abandoned element stored again are rejected; the completed log *)
+Example C05_monitor_nofini_accepts :
+  monitor_nf mon0 [Some ([EInit 0 None; EInit 1 None], [STok 0; STok 1]); Some ([], [STok 1]);
+                   Some ([EInit 2 (Some 1)], [STok 1; STok 2])] = [None; None; None]
+  /\ complete_obs mon0 [Some ([EInit 0 None; EInit 1 None], [STok 0; STok 1]); Some ([], [STok 1]);
+                        Some ([EInit 2 (Some 1)], [STok 1; STok 2])]
+     = [Some ([EInit 0 None; EInit 1 None], [STok 0; STok 1]); Some ([EFini 0], [STok 1]);
+        Some ([EInit 2 (Some 1)], [STok 1; STok 2])].
+Proof. split; reflexivity. Qed.
+Example C05_monitor_nofini_rejects :
+  monitor_nf mon0 [Some ([EInit 0 None; EInit 1 None], [STok 0; STok 1]); Some ([], [STok 1]); Some ([], [STok 1; STok 1])]
+  = [None; None; Some (VStoredDup 1)]
+  /\ monitor_nf mon0 [Some ([EInit 0 None; EInit 1 None], [STok 0; STok 1]); Some ([], [STok 1]); Some ([], [STok 1; STok 0])]
+  = [None; None; Some (VStoredDead 0)].
+Proof. split; reflexivity. Qed.
+
 Print Assumptions C05_elements_exactly_once.
 Print Assumptions C05_stored_is_live_at_every_point.
 Print Assumptions C05_shared_copy_constructs.
 Print Assumptions C05_step_never_faults.
 Print Assumptions C05_monitor_sound.
+Print Assumptions C05_shared_noinit_refused.
+Print Assumptions C05_monitor_nofini_complete.
